@@ -564,10 +564,54 @@ func (c *KindCase) Exec(t *eng.T) {
 	if o.Failed() || o.S != in {
 		t.Fail("safe:kind:"+c.Kind, "{{ v|safe }} (autoescape on) with the %s %q renders %s, want the text unchanged", c.Kind, in, o)
 	}
+	// ... also where a tag prints the expression itself: a named cycle and the tag that advances it, firstof
+	if in != "" {
+		oc := px.Render(nil, "{% for i in \"123\" %}{% cycle v|safe v|safe as c %}{% cycle c %};{% endfor %}{% firstof v|safe %}", pongo2.Context{"v": v})
+		if want := strings.Repeat(in+in+";", 3) + in; oc.Failed() || oc.S != want {
+			t.Fail("safe:tag-printed:"+c.Kind, "a named cycle over v|safe, the tag that advances it and firstof with the %s %q render %s, want %q", c.Kind, in, oc, want)
+		}
+	}
 	o = px.Render(nil, "{% autoescape off %}{{ v }}{% endautoescape %}|{{ v|safe|safe }}", pongo2.Context{"v": v})
 	if o.Failed() || o.S != in+"|"+in {
 		t.Fail("safe:kind:"+c.Kind, "autoescape-off / double safe with the %s %q renders %s", c.Kind, in, o)
 	}
+}
+
+// LitParamCase: a literal input with a parameter taken from the context: ONE compiled template rendered with several
+// parameter values gives each time what ApplyFilter gives for that value.
+type LitParamCase struct {
+	Filter string   `json:"filter"`
+	Lit    string   `json:"lit"`
+	Params []string `json:"params"`
+}
+
+func (c *LitParamCase) ID() string {
+	return fmt.Sprintf("{{ %q|%s:p }} rendered with p = %q", c.Lit, c.Filter, c.Params)
+}
+
+func (c *LitParamCase) Exec(t *eng.T) {
+	t.Nontrivial()
+	set, _ := px.NewSet(nil)
+	tpl, out := px.Compile(set, "{% autoescape off %}{{ "+strconv.Quote(c.Lit)+"|"+c.Filter+":p }}|{% filter "+c.Filter+":p %}"+c.Lit+"{% endfilter %}{% endautoescape %}")
+	if tpl == nil {
+		t.Fail("litparam:compile", "%s does not compile: %s", c.ID(), out)
+		return
+	}
+	for round, p := range append(append([]string{}, c.Params...), c.Params...) {
+		want, err := pongo2.ApplyFilter(c.Filter, pongo2.AsValue(c.Lit), pongo2.AsValue(p))
+		o := px.Exec(tpl, pongo2.Context{"p": p})
+		if err != nil {
+			if !o.Failed() {
+				t.Fail("litparam:no-error", "%s: round %d (p=%q) renders %s, ApplyFilter fails: %v", c.ID(), round+1, p, o, err)
+			}
+			continue
+		}
+		if o.Failed() || o.S != want.String()+"|"+want.String() {
+			t.Fail("litparam:stale", "%s: round %d (p=%q) renders %s, ApplyFilter gives %q", c.ID(), round+1, p, o, want.String())
+			return
+		}
+	}
+	t.Outcome("ok")
 }
 
 // SafeIdentCase: `safe` returns its input unchanged - also when the input is not text (the filters behind it see
@@ -606,6 +650,14 @@ func (c *SafeIdentCase) Exec(t *eng.T) {
 }
 
 func runKinds(r *eng.Runner, a16 []string) {
+	r.Group("literal-input-context-parameter", "c17.litparam", "a literal input with the filter's parameter taken from the context, one compiled template rendered with 3 parameter values twice over (removetags, cut, addslashes with an ignored parameter, default, join)")
+	for _, lp := range []LitParamCase{
+		{"removetags", "<b>x</b><i>y</i><u>z</u>", []string{"b", "i", "b,u"}}, {"cut", "a<b>&c", []string{"<", "&", "b"}}, {"default", "", []string{"<1>", "&2", "'3'"}},
+		{"addslashes", "a'b\\c", []string{"x", "y", "z"}}, {"truncatechars", "<abcdefgh>", []string{"4", "6", "20"}}, {"escape", "<&>", []string{"a", "b", "c"}},
+	} {
+		lp := lp
+		r.Do(&lp)
+	}
 	r.Group("safe-identity", "c17.safeident", "safe applied to 10 values that are not text (numbers, nil, lists, a map, a bool, a pointer): the result is the input, and 10 kind-sensitive filters behind it give what they give without it")
 	for _, n := range []string{"int", "nil", "strings", "false", "float", "map", "intptr", "anys", "uint8", "emptylist"} {
 		r.Do(&SafeIdentCase{Name: n})
@@ -634,6 +686,7 @@ func runTagRoute(r *eng.Runner, fs []fp, a16 []string) {
 
 func init() {
 	eng.RegisterCase("c17.kind", func() eng.Case { return &KindCase{} })
+	eng.RegisterCase("c17.litparam", func() eng.Case { return &LitParamCase{} })
 	eng.RegisterCase("c17.safeident", func() eng.Case { return &SafeIdentCase{} })
 	eng.RegisterCase("c17.case", func() eng.Case { return &Case{} })
 	eng.Register(&eng.Check{
